@@ -30,6 +30,9 @@ CHECKS = {
  'C11': ('exploration',
          "Held on the executions explored: stop(SUCCESS/ERROR/CANCELLED, msg) injected at unit boundaries on the root or a nested execution; monitors: requested final state/message/output.result held to the end, no task inserted after the stop, every unfinished descendant of a cancelled execution CANCELLED with its parent task, each finished sub-workflow reported to its parent exactly once, late results change nothing.",
          "runtime monitoring: finality / no-insert-after-stop / tree-consistency monitors over recorded row history and RPC sends under stop injection at every unit boundary"),
+ 'C13': ('fault_enumeration',
+         "Held on the schedules and crash points enumerated: 1..3 real DefaultScheduler / LegacyScheduler instances on the shared database, 1..3 jobs scheduled in committing / rolling-back / object-expiring transactions; interleavings of persist, in-memory dispatch, store poll and clock steps with yield points before every DB-API call (dfs by re-execution + randomized strategies); for recorded schedules a sys.monitoring LINE failpoint kills an instance at its k-th statement, for every k; oracle over the invocation log (at least once if committed, never early, exactly once without crash, never if rolled back) and has_scheduled_jobs(key, processing=False) compared with the committed rows at every unit boundary.",
+         "runtime monitoring: offline checker over the recorded invocation log + per-boundary assertion on the key query, under dfs interleaving and sys.monitoring statement-level crash injection"),
  'C14': ('exploration',
          "Held on the inputs explored: structure-aware and text-level mutants of every bundled YAML definition and of generated workflows, each through the workflow-list / workbook / action-list parsers with validation on and a share through the definition services (create/update with the DB); oracle: accepted or a declared 4xx definition error, never another exception nor a call over the time budget; for accepted definitions the specification rebuilt from its stored dict is equal through the public getters and every member cut out of a workbook text parses to the member written in the workbook.",
          "runtime monitoring: outcome-class / round-trip / slicing monitors on the real parser and service entry points under structure-aware fuzzing, with faulthandler watchdogs for hangs"),
@@ -40,7 +43,8 @@ CHECKS = {
          "Held on the URLs explored: a catalogue of addresses inside/outside the denied networks rendered from their numeric value in every textual form (decimal, octal, hex, short, mixed radix, IPv6 spellings, IPv4-mapped IPv6, zone ids, case), fake-resolver names with single/multiple/mixed answers, schemes, userinfo, ports, parser-differential candidates, under default and operator-modified denied_cidrs / allowed_hosts; validate_url must refuse what the statement demands (ground truth by construction) and an audit-hook egress sanitizer under the real requests stack driven by the real HTTPAction / MistralHTTPAction / WebhookPublisher must never see a connect to a denied address nor a client call for a refused URL.",
          "runtime monitoring: sys.addaudithook egress sanitizer (socket.connect / getaddrinfo) under the real HTTP client + ground-truth-by-construction oracle on validate_url"),
 }
-NOTES = {'C14': "Trusted base: PyYAML for building the mutants and the expected workbook members, the fingerprint function over public getters. REST entry points are exercised by the C16 harness.",
+NOTES = {'C13': "Trusted base: the step driver that replaces the dispatcher / poller threads (due heap entries are popped by the harness; the _dispatcher thread's own waiting logic is not exercised in step mode), virtual clock, sqlite shared connection; the clock is never advanced while a live instance is between looking at a job and deleting it. Legacy scheduler: crash recovery not claimed.",
+         'C14': "Trusted base: PyYAML for building the mutants and the expected workbook members, the fingerprint function over public getters. REST entry points are exercised by the C16 harness.",
          'C18': "Trusted base: the reference in mvf/checks/c18.py, sqlite with foreign keys on (cascade deletes as on server databases), virtual clock.",
          'C19': "Trusted base: the URL catalogue's numeric ground truth, the fake resolver table, CPython audit events for socket.connect. No network: redirects and DNS rebinding are not exercised (every connect is aborted by the sanitizer)."}
 
